@@ -132,7 +132,7 @@ def check_history(ctx, c):
     ctx.cell(f"history/{c['name']}/dim{dim}")
     hist = []
     for step in range(c["nsteps"]):
-        op = str(rng.choice(["period", "period_scalar", "period_inplace", "period_edit_reported", "period_one_axis", "period_scalar_keeps_axis", "mode_no_one_axis", "iso_rotated", "mode_no", "seed", "anis", "len_scale_list", "angles", "opt", "len_scale",
+        op = str(rng.choice(["period", "period_scalar", "rejected_update", "period_inplace", "period_edit_reported", "period_one_axis", "period_scalar_keeps_axis", "mode_no_one_axis", "iso_rotated", "mode_no", "seed", "anis", "len_scale_list", "angles", "opt", "len_scale",
                              "new_model", "var", "call"]))
         with warnings.catch_warnings():
             warnings.simplefilter("ignore")
@@ -140,6 +140,21 @@ def check_history(ctx, c):
                 srf.generator.period = [round(float(v), 4) for v in rng.uniform(6, 25, size=dim)]
             elif op == "period_scalar":
                 srf.generator.period = round(float(rng.uniform(6, 25)), 4)
+            elif op == "rejected_update":
+                # an update that has to be refused (odd mode number) must leave the generator as it was
+                before = (np.array(srf.generator.period, copy=True), [int(v) for v in np.atleast_1d(srf.generator.mode_no)])
+                bad = [int(v) for v in rng.choice([4, 6, 8], size=dim)]
+                bad[int(rng.integers(0, dim))] = int(rng.choice([3, 5, 7]))
+                try:
+                    srf.generator.update(period=[round(float(v), 4) for v in rng.uniform(6, 25, size=dim)], mode_no=bad)
+                    ctx.fail({"what": "odd-mode-number-accepted", "dim": dim}, f"update(mode_no={bad}) did not raise")
+                    return
+                except ValueError:
+                    pass
+                after = (np.asarray(srf.generator.period), [int(v) for v in np.atleast_1d(srf.generator.mode_no)])
+                if not (np.array_equal(np.atleast_1d(before[0]), np.atleast_1d(after[0])) and before[1] == after[1]):
+                    ctx.fail({"what": "rejected-update-changed-the-reported-settings", "dim": dim}, f"period/mode_no {before} -> {after} although the update raised")
+                    return
             elif op == "period_inplace":
                 # augmented assignment on the property: read, scale, assign
                 srf.generator.period *= float(rng.choice([1.5, 0.75, 2.0]))
